@@ -133,11 +133,10 @@ theorem clone_refines {α : Type} (F : TypeO × List (Option (FieldO × List (Op
       simp [hl'] at this
 
 /-- the variant in the working tree -/
-theorem current_clone_refines {α : Type} (F : TypeO × List (Option (FieldO × List (Option ArgO))) × List (Option ArgO) → α)
-    (hd : PyGql.Generated.HeapCfg.currentCfg.deepClone = true) (hk : PyGql.Generated.HeapCfg.currentCfg.keepAllTypes = true) (fuel : Nat)
+theorem current_clone_refines {α : Type} (F : TypeO × List (Option (FieldO × List (Option ArgO))) × List (Option ArgO) → α) (fuel : Nat)
     (s : Schema) (h h' : Heap) (s' : Schema) (hc : closedB h s = true) (hw : wfB h s = true)
     (e : clone PyGql.Generated.HeapCfg.currentCfg fuel s h = some (h', s')) (n : String) : dumpAt F h' s' n = dumpAt F h s n :=
-  clone_refines F _ hd hk fuel s h h' s' hc hw e n
+  clone_refines F _ cur_deepClone cur_keepAllTypes fuel s h h' s' hc hw e n
 
 /-- SUBSUMED (kept for name stability) by the full `clone_refines_directives` (Props/C14_order.lean), which supplies the piece announced as missing below.
     DIRECTIVES, PARTIAL: the directive objects registered in the clone have the by-name view the copying phase gave them
